@@ -5,8 +5,13 @@ Real interactive binary on a pseudo-terminal (the real line editor, the real com
 that selects it, the prefix is typed after `vh-argv ` unquoted, after an open single quote and after an open double
 quote, TAB is pressed, then Enter: the helper must receive exactly the entry's name. Directories: `cd <prefix>` TAB
 Enter must enter exactly that directory. Candidate lists: for populations with shared prefixes TAB TAB must offer
-exactly the entries with the typed prefix (directories only after cd)."""
+exactly the entries with the typed prefix (directories only after cd).
+
+In-process layer (harness/src/props/c20.rs): word start + path completion + Enter processing + planner, composed from the
+real functions, for EVERY name of length <= 3 (thorough 4) over the alphabet in all four contexts (82 k / 2.2 M cases);
+the composition (a model of the editor glue only) is bound to the real editor by recomputing every pty verdict."""
 import itertools
+import json
 import os
 import time
 
@@ -192,8 +197,11 @@ def run(rep, tier):
         for ctx in ('S', 'D'):
             add(ctx, hot)
     states = set()
+    pty_verdicts = []
     for batch in common.pmap(run_batch, jobs, chunk=1):
         for ctx, name, kind, info in batch:
+            if kind != 'machinery':
+                pty_verdicts.append((ctx, name, kind))
             rep.evaluations += 1
             rep.transitions += 1
             rep.nontrivial += 1
@@ -220,6 +228,24 @@ def run(rep, tier):
             rep.traces_validated += 1
     rep.states = len(states)
     rep.bounds.append({'layer': 'pty sessions', 'batches': len(jobs), 'complete': True})
+    # in-process layer: the same steps composed from the real functions (word start, path completion, Enter processing,
+    # planner) for EVERY name up to length 3 (thorough 4) in every context; bound to the real editor by recomputing every
+    # verdict of the pty layer (conformance). If the two disagree anywhere the composition is not trusted and not used.
+    vfile = os.path.join(common.scratch_root(), 'c20-pty-verdicts.json')
+    with open(vfile, 'w') as f:
+        json.dump(pty_verdicts, f)
+    res = common.run_engine('C20', tier, [common.HELPERS, vfile])
+    conf = res.get('conformance', {})
+    rep.bounds.append({'layer': 'conformance of the in-process composition with the real editor', 'verdicts_recomputed': conf.get('checked', 0),
+                       'disagreements': conf.get('mismatches', 0), 'complete': True})
+    if conf.get('mismatches', 0) or conf.get('checked', 0) < len(pty_verdicts):
+        rep.assumptions.append('in-process layer NOT used in this run: it disagrees with the real editor on %d of %d recomputed verdicts (examples: %s)'
+                               % (conf.get('mismatches', 0), conf.get('checked', 0), json.dumps(conf.get('examples', [])[:3])[:600]))
+        if not rep.viol:
+            rep.machinery.append('C20 in-process composition disagrees with the real line editor on %d cases: %s' % (conf.get('mismatches', 0), json.dumps(conf.get('examples', [])[:2])[:800]))
+    else:
+        rep.traces_validated += conf.get('checked', 0)
+        rep.merge_engine(res)
     rep.sample({'context': 'unquoted', 'entry_name': 'ab$ ', 'typed': 'vh-argv ab<TAB><Enter>'})
     if rep.outcomes.get('ok:U', 0) < 100:
         rep.machinery.append('vacuity guard: too few passing unquoted completions')
